@@ -239,6 +239,115 @@ theorem C09_probe_shape (svc : Svc) :
   open Zc.GenFacts.Register in
   simp [probePkt, Svc.ptr, mkRec, unique_inUnique, class_inUnique, typePtr_eq]
 
+/-! ### probe first, *only then* announce — the whole `async_register_service` call -/
+
+/-- **Only then.**  For every history of wake-ups, one `async_register_service` call (`registerRun`: check, `registry.async_add`,
+announcement task) puts on the wire: first nothing but probes (everything the check sent); and — exactly when the check completed
+and the registry accepted the name — afterwards the three announcements of the **final** service `r.cfg.st.svc` (the name that
+passed the last check), the first at the completion instant `now`, i.e. at the instant of the third probe, then `now + 225`,
+`now + 450`; the last three probes are those of that final name at `now − 350`, `now − 175`, `now`; the name is appended to the
+registry's key table.  In every other outcome (`NonUniqueNameException`, `BadTypeInNameException`,
+`ServiceNameAlreadyRegistered`, check still waiting) no announcement is ever sent and the registry is unchanged. -/
+theorem C09_only_then (allow : Bool) (valid : String → Bool) (lower : String → String) (names : Names) (svc : Svc) (inst : String) (oid : Nat)
+    (w0 : Wake) (ws : List Wake) (r : RegResult)
+    (h : registerRun allow valid lower names svc inst oid w0 ws = some r) :
+    (∀ x ∈ r.cfg.sent, ∃ s, x.2 = probePkt s) ∧
+    match r.task with
+    | some t =>
+        r.error = none ∧ r.cfg.phase = .done ∧ t = announceTask r.cfg.st.svc oid r.cfg.st.now ∧
+        r.names = names ++ [(lower r.cfg.st.svc.name, oid)] ∧
+        ∃ older, r.wire = older ++ probeSchedule (r.cfg.st.now - 350) r.cfg.st.svc ++
+          [(r.cfg.st.now, broadcastPkt r.cfg.st.svc none true), (r.cfg.st.now + 225, broadcastPkt r.cfg.st.svc none true),
+           (r.cfg.st.now + 450, broadcastPkt r.cfg.st.svc none true)]
+    | none => r.names = names ∧ r.wire = r.cfg.sent := by
+  unfold registerRun at h
+  split at h
+  · simp at h
+  rename_i c hrun
+  have hip := run_inv_probes allow valid ws _ c (start_inv _ svc inst w0.now) (start_probes _ svc inst w0.now) hrun
+  obtain ⟨hinv, hprobes⟩ := hip
+  split at h
+  · rename_i hdone
+    split at h
+    · rename_i names' hadd
+      simp only [Option.some.injEq] at h
+      subst h
+      refine ⟨hprobes, rfl, hdone, rfl, ?_, ?_⟩
+      · unfold Names.add at hadd
+        split at hadd
+        · simp at hadd
+        · simp only [Except.ok.injEq] at hadd; exact hadd.symm
+      · simp only [Inv, hdone] at hinv
+        obtain ⟨⟨T, older, hs, hn⟩, hi3, hnow⟩ := hinv
+        refine ⟨older, ?_⟩
+        have hT : T = c.st.now - 350 := by rw [hi3] at hn; push_cast at hn; omega
+        simp only [RegResult.wire, C09_announce_schedule, hs, hi3, hT]
+        simp [seqProbes, probeSchedule, List.range_succ]
+    · simp only [Option.some.injEq] at h
+      subst h
+      exact ⟨hprobes, rfl, by simp [RegResult.wire]⟩
+  · simp only [Option.some.injEq] at h
+    subst h
+    exact ⟨hprobes, rfl, by simp [RegResult.wire]⟩
+  · simp only [Option.some.injEq] at h
+    subst h
+    exact ⟨hprobes, rfl, by simp [RegResult.wire]⟩
+
+/-- **The conflicting name is never announced.**  Whatever happens to the cache afterwards (the peer's record may expire or be
+withdrawn), a name the registration has moved away from is never the name it completes — and hence (`C09_only_then`) is announced —
+under: names only move forward through `name`, `-2`, `-3`, … (the suffix counter never decreases and candidate names are injective).
+`hname`: the instance part is what `instance_name_from_service_info` computes. -/
+theorem C09_abandoned_never_returns (allow : Bool) (valid : String → Bool) (svc : Svc) (inst : String) (w0 : Wake) (ws1 ws2 : List Wake)
+    (c1 c2 c3 : Cfg) (w : Wake) (hname : svc.name = inst ++ "." ++ svc.type)
+    (h1 : (Cfg.start { allow, valid, bucket := w0.bucket } svc inst w0.now).run allow valid ws1 = some c1)
+    (hw : c1.wake { allow, valid, bucket := w.bucket } w.now = some c2) (hch : c2.st.svc.name ≠ c1.st.svc.name)
+    (h3 : c2.run allow valid ws2 = some c3) (hd : c3.phase = .done) : c3.st.svc.name ≠ c1.st.svc.name := by
+  have i1 := run_inv allow valid ws1 _ c1 (start_inv _ svc inst w0.now) h1
+  have n1 := run_ninv allow valid inst svc.type svc.name 2 ws1 _ c1 (start_inv _ svc inst w0.now) (start_ninv _ svc inst w0.now) h1
+  obtain ⟨due, hph1, _⟩ := wake_some _ c1 c2 w.now hw
+  simp only [NInv, hph1] at n1
+  obtain ⟨a1, a2, _, a4, a5⟩ := n1
+  have i2 := wake_inv _ c1 c2 w.now i1 hw
+  have n2 : NInv inst svc.type svc.name c1.st.nextInst c2 :=
+    wake_ninv _ inst svc.type svc.name c1.st.nextInst c1 c2 w.now i1 (by simp only [NInv, hph1]; exact ⟨a1, a2, Nat.le_refl _, a4, a5⟩) hw
+  -- c2 is still alive (otherwise the run could not end `done` … unless c2 itself is `done`)
+  have hal : (∃ due, c2.phase = .waiting due) ∨ c2.phase = .done := by
+    cases hp : c2.phase with
+    | waiting due => exact Or.inl ⟨due, rfl⟩
+    | done => exact Or.inr rfl
+    | failed e =>
+      have := run_not_waiting allow valid c2 c3 ws2 (by intro d; simp [hp]) h3
+      rw [this, hp] at hd; simp at hd
+    | stuck =>
+      have := run_not_waiting allow valid c2 c3 ws2 (by intro d; simp [hp]) h3
+      rw [this, hp] at hd; simp at hd
+  have n2' : c1.st.nextInst ≤ c2.st.nextInst ∧ 2 ≤ c2.st.nextInst ∧ c2.st.svc.name = nameOf inst svc.type svc.name c2.st.nextInst := by
+    rcases hal with ⟨d, hp⟩ | hp <;> simp only [NInv, hp] at n2 <;> exact ⟨n2.2.2.1, n2.2.2.2.1, n2.2.2.2.2⟩
+  have hlt : c1.st.nextInst < c2.st.nextInst := by
+    rcases Nat.lt_or_ge c1.st.nextInst c2.st.nextInst with h | h
+    · exact h
+    · exfalso; apply hch
+      have : c2.st.nextInst = c1.st.nextInst := by omega
+      rw [n2'.2.2, a5, this]
+  have n3 := run_ninv allow valid inst svc.type svc.name c2.st.nextInst ws2 c2 c3 i2
+    (by rcases hal with ⟨d, hp⟩ | hp <;> simp only [NInv, hp] at n2 ⊢ <;> exact ⟨n2.1, n2.2.1, Nat.le_refl _, n2.2.2.2.1, n2.2.2.2.2⟩) h3
+  simp only [NInv, hd] at n3
+  obtain ⟨_, _, b3, b4, b5⟩ := n3
+  intro heq
+  rw [b5, a5, hname] at heq
+  have := nameOf_inj inst svc.type _ _ b4 a4 heq
+  omega
+
+/-- non-vacuity of `C09_conflict` (a conflict learnt in mid-run, at a notification wake-up 100 ms after the first probe): the
+hypotheses hold together and the registration goes on under `-2`, probing again at once and 175 ms later -/
+example :
+    let env : Env := { allow := true, valid := fun _ => true, bucket := [] }
+    let c := Cfg.start env ⟨"_http._tcp.local.", "svc._http._tcp.local.", "host.local.", 80, 0, 0, [], [[10, 0, 0, 1]], [], 120, 4500⟩ "svc" 1000
+    (c.wake { env with bucket := [⟨"_http._tcp.local.", 12, 1, false, 4500, 0, .ptr "svc._http._tcp.local."⟩] } 1100).map
+        (fun c' => (c'.st.svc.name, c'.st.i, c'.phase, c'.sent.map (·.1))) =
+      some ("svc-2._http._tcp.local.", 1, .waiting 1275, [1000, 1100]) := by
+  decide
+
 /-! ### the conflicting name as an owner name (known finding D16, `C09:server-none-keeps-conflicting-host-name`) -/
 
 /-- every record of an announcement is owned by the service type (PTR), the instance name (SRV, TXT, NSEC) or the host name (A, AAAA) -/
